@@ -91,6 +91,9 @@ def emit(prog, quantum=None, house="h1"):
     out.append("")
     # declaration order: taskables in house order first, then aux / slave framers
     names = list(prog["order"]) + [f for f in prog["framers"] if f not in prog["order"]]
+    if any(fr["sched"] == "slave" for fr in prog["framers"].values()) and len(names) % 2:
+        # declaration order is free: sometimes slaves / auxiliaries are declared before the framers that use them
+        names = [f for f in prog["framers"] if f not in prog["order"]] + list(prog["order"])
     for f in names:
         fr = prog["framers"][f]
         first = prog["frames"][fr["first"]]["name"]
